@@ -73,7 +73,9 @@ def main():
         report["demo_defect_rc"] = r.returncode
         report["confirmed"] = bool(report["demo_clean_rc"] == 0 and ok_all and r.returncode != 0)
         det = {}
-        for c in checks:
+        for ci, c in enumerate(checks):
+            if ci > 0 and det[checks[0]]["detected"] and os.environ.get("SEED_EVAL_OWN_FIRST"):
+                break  # the property's own check detects it: the neighbours are only consulted for misses
             hit, info = False, []
             for seed in ns.seeds.split(","):
                 e2 = {**os.environ, "VERIF_REPO": repo, "VERIF_SEED": seed, "VERIF_OUT": os.path.join(scratch, "out")}
